@@ -195,6 +195,7 @@ type Trk struct {
 	Count atomic.Int64 // all announces, stopped included
 	Last  atomic.Int64 // arrival (ms) of the latest announce
 	TorOf int          // torrent this tracker is dedicated to (0 = by info-hash only)
+	Quiet bool         // do not write `ann` lines (the caller records the announces on the client side)
 }
 
 func (k *Trk) URL() string {
@@ -251,7 +252,9 @@ func (k *Trk) script(r vh.AnnReq) vh.AnnReply {
 		"left": clamp(r.Left), "now": now, "key": r.Key, "tp": r.Transport, "numwant": r.NumWant}
 	if ev == "stopped" {
 		line["res"], line["iv"], line["miv"], line["dur"], line["nxt"], line["kind"] = "ok", 0, 0, 0, true, "ok"
-		s.Line("ann", line)
+		if !k.Quiet {
+			s.Line("ann", line)
+		}
 		return vh.AnnReply{Interval: vh.I64(1800)}
 	}
 	k.mu.Lock()
@@ -307,7 +310,9 @@ func (k *Trk) script(r vh.AnnReq) vh.AnnReply {
 		s.Fail("unknown reply kind %q", rep.Kind)
 	}
 	line["res"], line["iv"], line["miv"], line["dur"], line["nxt"], line["kind"], line["n"] = res, clamp(iv), clamp(miv), dur, rep.Up, rep.Kind, n
-	s.Line("ann", line)
+	if !k.Quiet {
+		s.Line("ann", line)
+	}
 	if k.OnAnn != nil {
 		k.OnAnn(n, r)
 	}
